@@ -199,6 +199,10 @@ func (w *Wrapper) Set(key string, val any) {
 	if key == "id" {
 		id, _ := val.(string)
 		w.SetID(id)
+
+		// The ID is not a field. Looking it up by json tag would panic
+		// when the ID field has no json tag or another one than "id".
+		return
 	}
 
 	w.setField(key, val)
